@@ -37,6 +37,12 @@ def dispatchHoliday (op : String) (args : List String) : Option String :=
         | .raises => "raises"
         | .noResult => "none"
         | .ok r => "ok " ++ showCps r.timex ++ "\t" ++ showHolDate r.future ++ "\t" ++ showHolDate r.past)
+  -- hol.values <timex> fy fm fd py pm pd -> type~timex~value;…   (`holidayValues`: what the merged parser emits for a holiday
+  -- entity; audit item 35: no correspondence op — tied in c11 to `_date_time_resolution` on the real `_match2date` result)
+  | "hol.values", [tx, fy, fm, fd, py, pm, pd] =>
+    let r : Res := ⟨parseCps tx, ⟨parseNat fy, parseNat fm, parseNat fd⟩, ⟨parseNat py, parseNat pm, parseNat pd⟩⟩
+    some (";".intercalate ((holidayValues r).map fun v =>
+      "~".intercalate [showCps v.type, showCps v.timex, match v.value with | none => "absent" | some x => showCps x]))
   | _, _ => none
 
 end RTV.Drv
